@@ -411,15 +411,22 @@ func advValue(it *simdjson.Iter, t simdjson.Type, steps *int, bound int) (*ref.V
 		}
 		top := &stack[len(stack)-1]
 		if top.isObj {
-			var elem simdjson.Iter
+			// the destination iterator of NextElement(Bytes) is recycled too (per nesting depth, across
+			// members and across documents: a long-lived Iter that last looked at another document,
+			// possibly one that lived in the same, since reused, ParsedJson)
+			var fresh simdjson.Iter
+			elemp := &fresh
+			if d := len(stack) - 1; SharedDst && d < len(advElemPool) {
+				elemp = &advElemPool[d]
+			}
 			var name []byte
 			var et simdjson.Type
 			var err error
 			if *steps&1 == 0 {
-				name, et, err = top.obj.NextElementBytes(&elem)
+				name, et, err = top.obj.NextElementBytes(elemp)
 			} else {
 				var sname string
-				sname, et, err = top.obj.NextElement(&elem)
+				sname, et, err = top.obj.NextElement(elemp)
 				name = []byte(sname)
 				Hold("Object.NextElement", sname)
 			}
@@ -433,6 +440,7 @@ func advValue(it *simdjson.Iter, t simdjson.Type, steps *int, bound int) (*ref.V
 				continue
 			}
 			top.key = append([]byte{}, name...)
+			elem := *elemp
 			v, err := open(&elem, et)
 			if err != nil {
 				return nil, err
@@ -839,8 +847,9 @@ func clip(b []byte) string {
 var rootDst simdjson.Iter
 
 var (
-	objPool [64]*simdjson.Object
-	arrPool [64]*simdjson.Array
+	objPool     [64]*simdjson.Object
+	arrPool     [64]*simdjson.Array
+	advElemPool [64]simdjson.Iter
 )
 
 // SharedDst enables the recycled destinations. Only single-threaded drivers
